@@ -192,8 +192,11 @@ void Executor::check_after_optimize(Obj& o, const Op& op, int st, bool flag_was_
     bool pdinf = ref.status == model::REF_INFEASIBLE && ref.dual_known && ref.dual_infeasible;
     auto cls = [&](int x) { if (pdinf && (x == sut::ST_INFEASIBLE || x == sut::ST_UNBOUNDED || x == sut::ST_INForUNBD)) return 100; return x; };
     ctx["twin"] = sut::status_name(st2);
-    if (is_final(st2) && cls(st) != cls(st2) && !bugs_fired) {
-      viol("C16", "resume_status_differs", std::string("resumed solve returned ") + sut::status_name(st) + ", uninterrupted solve of the same LP and settings returns " + sut::status_name(st2), ctx);
+    // knife-edge LPs (see refsimplex.cpp): two legitimate runs may land on different sides of the tolerance
+    bool fragile = !rational && ((ref.status == model::REF_OPTIMAL && (ref.feas_fragile || ref.bounded_fragile)) || (ref.status != model::REF_OPTIMAL && ref.status != model::REF_UNKNOWN && ref.margin < 1e-4));
+    if (fragile && is_final(st2) && is_final(st) && cls(st) != cls(st2)) count("fragile_skipped");
+    else if (is_final(st2) && cls(st) != cls(st2) && !bugs_fired) {
+      viol("C16", (std::string("resume_status_differs:") + sut::status_name(st)).c_str(), std::string("resumed solve returned ") + sut::status_name(st) + ", uninterrupted solve of the same LP and settings returns " + sut::status_name(st2), ctx);
     } else if (st == sut::ST_OPTIMAL && st2 == sut::ST_OPTIMAL) {
       double a = rational ? s.objValueQ().get_d() : s.objValue(), b = twinobj;
       double tol = 1e-5 * (1 + fabs(b) + (ref.status == model::REF_OPTIMAL ? ref.dualnorm : 0));
@@ -264,6 +267,7 @@ void Executor::check_verdict_real(Obj& o, int st, bool complete, const std::vect
     if (!s.isPrimalFeasible() || !s.isDualFeasible()) count("optimal_but_feasible_flags_false");
   } else if (st == sut::ST_INFEASIBLE) {
     count("verdict_checked_infeasible");
+    if (ref.status == model::REF_OPTIMAL && ref.feas_fragile) { count("fragile_skipped"); return; }
     if (ref.status != model::REF_INFEASIBLE) { both(p2, "infeasible_but_feasible", std::string("INFEASIBLE returned, exact reference says ") + model::ref_name(ref.status)); return; }
     if (s.hasDualFarkas()) {
       std::vector<double> y; std::string why;
@@ -279,6 +283,7 @@ void Executor::check_verdict_real(Obj& o, int st, bool complete, const std::vect
     } else if (s.getBool(P::b("ensureray"))) both(p2, "ensureray_no_farkas", "INFEASIBLE with ensureray but no Farkas proof offered");
   } else if (st == sut::ST_UNBOUNDED || st == sut::ST_INForUNBD) {
     count("verdict_checked_unbounded");
+    if (ref.status == model::REF_OPTIMAL && (ref.bounded_fragile || (st == sut::ST_INForUNBD && ref.feas_fragile))) { count("fragile_skipped"); return; }
     if (ref.status == model::REF_OPTIMAL) { both(p2, "unbounded_but_optimum_exists", std::string(sut::status_name(st)) + " returned, LP has finite optimum " + dstr(ref.z.get_d())); return; }
     if (st == sut::ST_UNBOUNDED && ref.status == model::REF_INFEASIBLE && ref.dual_known && !ref.dual_infeasible && robust) {
       both(p2, "unbounded_but_infeasible_dual_feasible", "UNBOUNDED returned for an infeasible LP that has no improving recession direction"); return; }
